@@ -41,7 +41,9 @@ impl Resid {
     fn parse(s: &str) -> Resid { match s { "lt" => Resid::Lt, "ne" => Resid::Ne, "never" => Resid::Never, "left_only" => Resid::LeftOnly, "right_only" => Resid::RightOnly, "le" => Resid::Le, _ => Resid::None } }
 }
 
-struct Shape { jt: JoinType, form: Form, nkeys: usize, resid: Resid, mixed: bool }
+/// `nested`: the right input is itself a join `t1 x1 <nested> t1 x2 ON x1.id1 = x2.id1` (the probe side of the top join is then a
+/// join OUTPUT: its build-side VARCHAR columns are gathered dictionary-encoded)
+struct Shape { jt: JoinType, form: Form, nkeys: usize, resid: Resid, mixed: bool, nested: Option<JoinType> }
 
 fn jt_parse(s: &str) -> JoinType { match s { "left" => JoinType::Left, "right" => JoinType::Right, "full" => JoinType::Full, "semi" => JoinType::Semi, "anti" => JoinType::Anti, "cross" => JoinType::Cross, _ => JoinType::Inner } }
 
@@ -65,11 +67,12 @@ fn cut(r: &mut Rng, n: usize, max_batches: usize) -> Vec<usize> {
 }
 
 /// the two tables; `ktys[i]` is the type of key column i on both sides (`mixed`: a0 INTEGER against a1 BIGINT)
-fn gen_tables(r: &mut Rng, lclass: &str, rclass: &str, mixed: bool) -> (Catalog, String) {
+fn gen_tables(r: &mut Rng, lclass: &str, rclass: &str, mixed: bool, kty0: Option<ColTy>) -> (Catalog, String) {
     let big = |c: &str| c == "k1" || c == "k10";
     let anybig = big(lclass) || big(rclass);
     let pool: &[ColTy] = if anybig { &[ColTy::I64, ColTy::I64, ColTy::I32, ColTy::Date] } else { &[ColTy::I64, ColTy::I64, ColTy::I32, ColTy::Str, ColTy::Date] };
     let mut ktys = [*r.pick(pool), *r.pick(&[ColTy::I64, ColTy::Str, ColTy::I32, ColTy::Date]), *r.pick(&[ColTy::Date, ColTy::I64, ColTy::Str])];
+    if let Some(k) = kty0 { ktys[0] = k; }
     // `mixed`: one side's first key is INTEGER, the other side's BIGINT (which side: a coin)
     let narrow_side = if mixed { ktys[0] = ColTy::I64; Some(r.below(2) as usize) } else { None };
     let (nl, nr) = (rows_of(r, lclass), rows_of(r, rclass));
@@ -168,6 +171,15 @@ fn build_query(cat: &Catalog, sh: &Shape, all_cols: bool) -> QueryExpr {
         return QueryExpr::of(Body::Select(Box::new(Select { from: Some(t0), where_, group: None, having: None, proj, distinct: false })));
     }
     let on = if sh.jt == JoinType::Cross { None } else { condition(cat, sh, false) };
+    if let Some(jt2) = sh.nested {
+        let t2 = Rel::Table { t: 1, name: "t1".into(), alias: "x2".into() };
+        let id = &cat.tables[1].cols[0].name;
+        let on2 = Expr::bin(BinOp::Eq, Expr::Col { i: 0, sql: format!("x1.{}", id) }, Expr::Col { i: rw, sql: format!("x2.{}", id) });
+        let right = Rel::Join { jt: jt2, l: Box::new(t1), r: Box::new(t2), lw: rw, rw, on: Some(on2) };
+        if !left_only { proj.push((Expr::Col { i: lw + rw, sql: format!("x2.{}", id) }, format!("o{}", proj.len()))); }
+        let from = Rel::Join { jt: sh.jt, l: Box::new(t0), r: Box::new(right), lw, rw: 2 * rw, on };
+        return QueryExpr::of(Body::Select(Box::new(Select { from: Some(from), where_: None, group: None, having: None, proj, distinct: false })));
+    }
     let from = Rel::Join { jt: sh.jt, l: Box::new(t0), r: Box::new(t1), lw, rw, on };
     QueryExpr::of(Body::Select(Box::new(Select { from: Some(from), where_: None, group: None, having: None, proj, distinct: false })))
 }
@@ -178,12 +190,13 @@ fn gen_shape(r: &mut Rng, n: usize, o: &Opts) -> Shape {
     let form = if matches!(jt, JoinType::Semi | JoinType::Anti) && r.chance(1, 3) && o.get_usize("exists", 1) == 1 { Form::Exists } else { Form::Join };
     let nkeys = if jt == JoinType::Cross { 0 } else { *r.pick(&[1usize, 1, 1, 2, 2, 3]) };
     let resid = if jt == JoinType::Cross { Resid::None } else { match o.get("resid") { Some(s) => Resid::parse(s), None => *r.pick(&[Resid::None, Resid::None, Resid::None, Resid::Lt, Resid::Ne, Resid::Never, Resid::LeftOnly, Resid::RightOnly, Resid::Le]) } };
-    // EXISTS forms: equality correlation, optionally with the symmetric residual `<>`.  Ordered / arithmetic correlated
-    // residuals go wrong in the decorrelation rule (flipped comparison, unresolved column) — C23's findings, not the join's.
-    let resid = if form == Form::Exists && resid != Resid::None { Resid::Ne } else { resid };
+    // EXISTS forms: equality correlation plus, optionally, a two-sided residual (a one-sided one is an ordinary subquery filter)
+    let resid = if form == Form::Exists && matches!(resid, Resid::LeftOnly | Resid::RightOnly) { Resid::Ne } else { resid };
     // `mixed=0` never, `mixed=2` always, default 1 case in 40
     let mixed = jt != JoinType::Cross && match o.get_usize("mixed", 1) { 0 => false, 2 => true, _ => r.chance(1, 40) };
-    Shape { jt, form, nkeys, resid, mixed }
+    let nested = if form == Form::Join && jt != JoinType::Cross && !mixed && o.get_usize("nested", 1) >= 1 && (o.get_usize("nested", 1) == 2 || r.chance(1, 8)) {
+        Some(*r.pick(&[JoinType::Inner, JoinType::Left, JoinType::Right])) } else { None };
+    Shape { jt, form, nkeys, resid, mixed, nested }
 }
 
 fn size_classes(r: &mut Rng, n: usize, o: &Opts, op: bool) -> (String, String) {
@@ -206,7 +219,7 @@ fn size_tags(cat: &Catalog) -> Vec<String> {
 }
 
 fn common_tags(sh: &Shape, desc: &str) -> Vec<String> {
-    let mut tags = vec![format!("jt:{}", sh.jt.json()), format!("form:{}", if sh.form == Form::Exists { "exists" } else { "join" }), format!("nkeys:{}", sh.nkeys), format!("resid:{}", sh.resid.name())];
+    let mut tags = vec![format!("jt:{}", sh.jt.json()), format!("form:{}", if sh.form == Form::Exists { "exists" } else if sh.nested.is_some() { "nested" } else { "join" }), format!("nkeys:{}", sh.nkeys), format!("resid:{}", sh.resid.name())];
     if sh.mixed { tags.push("f:mixed_width".into()); }
     for w in desc.split(' ') { if !w.is_empty() { tags.push(w.to_string()); } }
     tags
@@ -216,7 +229,11 @@ fn common_tags(sh: &Shape, desc: &str) -> Vec<String> {
 fn gen_sql_case(r: &mut Rng, n: usize, o: &Opts) -> (Value, Value) {
     let sh = gen_shape(r, n, o);
     let (lc, rc) = size_classes(r, n, o, false);
-    let (mut cat, desc) = gen_tables(r, &lc, &rc, sh.mixed);
+    let (mut cat, desc) = {
+        // nested cases aim at VARCHAR keys (dictionary-gathered join outputs)
+        let kty0 = if sh.nested.is_some() && !(lc == "k1" || rc == "k1" || lc == "k10" || rc == "k10") && r.chance(2, 3) { Some(ColTy::Str) } else { None };
+        gen_tables(r, &lc, &rc, sh.mixed, kty0)
+    };
     cap_output(r, &mut cat, sh.nkeys, o.get_usize("cap", 3000));
     let cfg_names: Vec<&str> = o.get("cfgs").unwrap_or("mem1,memb,memb,pq1x64,pq2x7,pq2x500").split(',').collect();
     let mut cfg_name = cfg_names[(n / 7) % cfg_names.len()].to_string();
@@ -342,10 +359,10 @@ fn run_op(case: &Value) -> Value {
 
 fn gen_op_case(r: &mut Rng, n: usize, o: &Opts) -> (Value, Value) {
     let mut sh = gen_shape(r, n, o);
-    sh.form = Form::Join; sh.mixed = false;
+    sh.form = Form::Join; sh.mixed = false; sh.nested = None;
     if sh.jt == JoinType::Cross { sh.resid = Resid::None; }
     let (lc, rc) = size_classes(r, n, o, true);
-    let (mut cat, desc) = gen_tables(r, &lc, &rc, false);
+    let (mut cat, desc) = gen_tables(r, &lc, &rc, false, None);
     cap_output(r, &mut cat, sh.nkeys, o.get_usize("cap", 3000));
     let q = build_query(&cat, &sh, true);
     let build_right = match sh.jt { JoinType::Right => true, _ => r.chance(1, 2) };
@@ -408,24 +425,24 @@ fn witness_cases() -> Vec<(Value, Value)> {
     };
     // F1  filtered Semi/Anti, ≤ 1000 probe rows: the generic loop probes an empty table → SEMI returns nothing
     push("C22-F1", Catalog { tables: vec![table(0, ColTy::I64, vec![row(0, 1, 1), row(1, 2, 1)]), table(1, ColTy::I64, vec![row(0, 1, 2), row(1, 3, 2)])] },
-         Shape { jt: JoinType::Semi, form: Form::Join, nkeys: 1, resid: Resid::Lt, mixed: false }, "mem1");
+         Shape { jt: JoinType::Semi, form: Form::Join, nkeys: 1, resid: Resid::Lt, mixed: false, nested: None }, "mem1");
     // F2  filtered Semi, > 1000 probe rows, build = left: only the first qualifying build row of a key is marked
     let l2: Vec<Vec<Val>> = (0..6).map(|k| row(k, k / 2, 1)).collect();
     let r2: Vec<Vec<Val>> = (0..1001).map(|k| row(k, k % 3, 2)).collect();
     push("C22-F2", Catalog { tables: vec![table(0, ColTy::I64, l2), table(1, ColTy::I64, r2)] },
-         Shape { jt: JoinType::Semi, form: Form::Join, nkeys: 1, resid: Resid::Lt, mixed: false }, "mem1");
+         Shape { jt: JoinType::Semi, form: Form::Join, nkeys: 1, resid: Resid::Lt, mixed: false, nested: None }, "mem1");
     // F3  BIGINT build key (dense: direct-address table) probed with an INTEGER key
     push("C22-F3", Catalog { tables: vec![table(0, ColTy::I64, vec![row(0, 1, 1), row(1, 2, 1)]), table(1, ColTy::I32, vec![row(0, 1, 2), row(1, 3, 2)])] },
-         Shape { jt: JoinType::Left, form: Form::Join, nkeys: 1, resid: Resid::None, mixed: true }, "mem1");
+         Shape { jt: JoinType::Left, form: Form::Join, nkeys: 1, resid: Resid::None, mixed: true, nested: None }, "mem1");
     // F4  LEFT JOIN whose build (right) input yields no batch at all: the NULL-extended rows cannot be assembled
     let mut empty = table(1, ColTy::I64, vec![]); empty.cuts = vec![];
     push("C22-F4", Catalog { tables: vec![table(0, ColTy::I64, vec![row(0, 1, 1), row(1, 2, 1)]), empty] },
-         Shape { jt: JoinType::Left, form: Form::Join, nkeys: 1, resid: Resid::None, mixed: false }, "memb");
+         Shape { jt: JoinType::Left, form: Form::Join, nkeys: 1, resid: Resid::None, mixed: false, nested: None }, "memb");
     // F5  filtered Semi, > 1000 probe rows (build = right): the compiled residual reads the NULL v0 of row 0 as 0, and 0 <> 2
     let l5: Vec<Vec<Val>> = (0..1001).map(|k| vec![i(k), i(k % 3), i(0), i(0), if k == 0 { nl() } else { i(2) }]).collect();
     let r5: Vec<Vec<Val>> = (0..3).map(|k| row(k, k, 2)).collect();
     push("C22-F5", Catalog { tables: vec![table(0, ColTy::I64, l5), table(1, ColTy::I64, r5)] },
-         Shape { jt: JoinType::Semi, form: Form::Join, nkeys: 1, resid: Resid::Ne, mixed: false }, "mem1");
+         Shape { jt: JoinType::Semi, form: Form::Join, nkeys: 1, resid: Resid::Ne, mixed: false, nested: None }, "mem1");
     out
 }
 
@@ -439,7 +456,7 @@ pub fn main(o: &Opts) {
         // `--opt probe="SELECT … FROM t0 x0 JOIN t1 x1 ON …" [--opt sizes=small] [--opt cfgs=mem1,pq1x64]`
         let mut r = Rng::new(o.seed ^ 0xC22);
         let (lc, rc) = size_classes(&mut r, 0, o, false);
-        let (cat, desc) = gen_tables(&mut r, &lc, &rc, o.get_usize("mixed", 0) == 1);
+        let (cat, desc) = gen_tables(&mut r, &lc, &rc, o.get_usize("mixed", 0) == 1, o.get("kty").and_then(ColTy::parse));
         for t in &cat.tables { eprintln!("{} {:?} rows={} cuts={:?}", t.name, t.cols.iter().map(|c| format!("{}:{}", c.name, c.cty.name())).collect::<Vec<_>>(), t.rows.len(), t.cuts); }
         eprintln!("{}", desc);
         if o.get_usize("show", 0) == 1 { for t in &cat.tables { for row in &t.rows { eprintln!("  {} {:?}", t.name, row); } } }
